@@ -147,6 +147,20 @@ func VH_C06_fault() {
 	if aerr != nil {
 		return
 	}
+	// a failed write does not cost an object accepted earlier: it is still
+	// there, with its accepted contents (an update that failed half way may
+	// have left either version, never none)
+	if op != 2 {
+		g := vhC05Contains(objs, base.UUID())
+		vAssert("C06.fault.accepted_object_survives", g != nil)
+		if g != nil {
+			if op == 1 {
+				vAssert("C06.fault.accepted_old_or_new", vOr(vhFieldsEq(g, base), vhFieldsEq(g, n1)))
+			} else {
+				vAssert("C06.fault.accepted_contents", vhFieldsEq(g, base))
+			}
+		}
+	}
 	for _, o := range objs {
 		v := o.(*vObj)
 		s := db.Search(&vObj{}, "A", "=", v.A)
